@@ -446,3 +446,15 @@ Proof.
   - cbn [Nat.sub]. pose proof (Nat.mul_div_le (npts + 1) 2). lia.
   - split; [apply repeat_length|]. intros lo Hlo. cbn in Hlo. lia.
 Qed.
+
+(* ------------------------------------------------------------------ folds that consult the libm oracle *)
+(* when the option-valued quadrature loop of ModelF succeeds, it is the plain loop over the unwrapped integrand (used by the
+   per-run tie between ModelF.VF and the V function translated from cosmolib.c) *)
+Lemma fold_opt_unwrap : forall (l : list (float * float)) (g : float -> option float) f1 f2 acc r,
+  fold_left (fun acc xw => match acc, g (fst xw * f1 + f2) with Some a, Some v => Some (a + f1 * v * snd xw) | _, _ => None end) l (Some acc) = Some r ->
+  fold_left (fun v xw => v + f1 * (match g (fst xw * f1 + f2) with Some d => d | None => 0 end) * snd xw) l acc = r.
+Proof.
+  induction l as [|xw l IH]; intros g f1 f2 acc r H; cbn in *; [congruence|].
+  destruct (g (fst xw * f1 + f2)) as [v|]; [apply IH; assumption|].
+  exfalso. clear IH. induction l as [|y l IHl]; cbn in H; [discriminate|apply IHl; assumption].
+Qed.
